@@ -165,7 +165,7 @@ def token_positions(text):
 NUM_RE = re.compile(r"[+-]?\d+(\.\d*)?([eE][+-]?\d+)?$")
 
 
-def token_corruptions(text, pos, rng, per_kind=1):
+def token_corruptions(text, pos, rng, per_kind=1, kinds=None):
     """the single corruptions applicable at one token position: list of (kind, new_text)"""
     li, s, e = pos
     lines = text.split("\n")
@@ -188,6 +188,11 @@ def token_corruptions(text, pos, rng, per_kind=1):
         j = rng.choice(JUNK)
         where = rng.choice([s, e, (s + e) // 2])
         put("insert-junk", l[:where] + j + l[where:])
+    # swap with the next word of the same line when the two are of different kind (number / word)
+    rest = l[e:].split("$")[0]
+    m2 = re.match(r"([ \t]+)([^ \t]+)", rest)
+    if m2 and bool(NUM_RE.match(tok)) != bool(NUM_RE.match(m2.group(2))):
+        put("swap-adjacent", l[:s] + m2.group(2) + m2.group(1) + tok + l[e + m2.end():])
     put("truncate-line", l[:s].rstrip() if l[:s].strip() else None)
     if e - s > 1:
         put("truncate-token", l[: s + (e - s) // 2])
@@ -196,6 +201,8 @@ def token_corruptions(text, pos, rng, per_kind=1):
         put("zero-number", l[:s] + "0" + l[e:])
         put("fraction-number", l[:s] + (tok + "5" if "." in tok and "e" not in tok.lower() else tok.split("e")[0].split("E")[0].rstrip(".") + ".5") + l[e:])
         put("dangle-or-duplicate-number", l[:s] + rng.choice(["987", "1", "2", "99999999"]) + l[e:])
+    if kinds is not None:
+        out = [x for x in out if x[0] in kinds]
     return out
 
 
@@ -334,7 +341,16 @@ def _read(path, check):
                     problem = montepy.read_input(path)
                 signal.setitimer(signal.ITIMER_REAL, 0)
                 mats = list(problem.materials)
+                sem = None
+                if not check:
+                    try:
+                        from . import c13sem
+
+                        sem = c13sem.semantic(problem)
+                    except Exception as e:  # noqa: BLE001
+                        sem = {"error": type(e).__name__ + ": " + str(e)[:200]}
                 res = {
+                    "sem": sem,
                     "out": "returns",
                     "cells": len(problem.cells),
                     "surfaces": len(problem.surfaces),
